@@ -156,4 +156,57 @@ theorem Vlan.toBytes_arith (h : Vlan) (wf : h.WF) :
     have : h.vid / 256 % 256 + 16 + h.pcp * 32 % 256 = h.pcp * 32 + 16 + h.vid / 256 := by omega
     rw [this]
 
+/-! ### Ipv6FragmentHeader -/
+
+def Frag6.get (h : Frag6) (name : String) : Nat :=
+  if name = "next_header" then h.nextHeader else if name = "frag_off" then h.fragOff
+  else if name = "m" then b2n h.mf else if name = "identification" then h.ident else 0
+
+def Frag6.set (h : Frag6) (name : String) (v : Nat) : Frag6 :=
+  if name = "next_header" then { h with nextHeader := v }
+  else if name = "frag_off" then { h with fragOff := v }
+  else if name = "m" then { h with mf := decide (v ≠ 0) }
+  else if name = "identification" then { h with ident := v } else h
+
+def Frag6.settable : List String := ["next_header", "frag_off", "m", "identification"]
+
+theorem Frag6.toBytes_arith (h : Frag6) (wf : h.WF) :
+    h.toBytes = [u8 h.nextHeader, 0, u8 ((h.fragOff * 8 + b2n h.mf) / 256 % 256),
+      u8 ((h.fragOff * 8 + b2n h.mf) % 256),
+      u8 (h.ident / 16777216 % 256), u8 (h.ident / 65536 % 256), u8 (h.ident / 256 % 256),
+      u8 (h.ident % 256)] := by
+  obtain ⟨h1, h2, h3⟩ := wf
+  unfold Frag6.toBytes
+  have e : (h.fragOff * 8 % 65536) ||| (if h.mf then 1 else 0) = h.fragOff * 8 + b2n h.mf := by
+    rw [lor_eq_add 3 _ _ (by omega) (by split <;> omega)]
+    unfold b2n; omega
+  simp only [e]
+
+/-! ### igmp::MembershipQueryWithSourcesHeader (IGMPv3 query) -/
+
+@[simp] theorem arr_cons_zero (x : UInt8) (xs : Bytes) : arr (x :: xs) 0 = x := by simp [arr]
+@[simp] theorem arr_cons_succ (x : UInt8) (xs : Bytes) (n : Nat) :
+    arr (x :: xs) (n + 1) = arr xs n := by simp [arr]
+
+def Query.get (h : Query) (checksum : Nat) (name : String) : Nat :=
+  if name = "type" then 17 else if name = "max_resp_code" then h.maxRespCode
+  else if name = "checksum" then checksum else if name = "group" then spanVal h.group 0 4
+  else if name = "flags" then h.rawByte8 / 16 else if name = "s" then h.rawByte8 / 8 % 2
+  else if name = "qrv" then h.rawByte8 % 8 else if name = "qqic" then h.qqic
+  else if name = "num_sources" then h.numSources else 0
+
+theorem Query.setFlags_arith (raw v : Nat) :
+    Query.setFlags raw v = raw % 16 + v % 16 * 16 := by
+  unfold Query.setFlags
+  rw [lor_eq_add' 4 _ _ (by omega) (by omega)]; omega
+
+theorem Query.setSFlag_arith (raw : Nat) (v : Bool) :
+    Query.setSFlag raw v = raw / 16 * 16 + b2n v * 8 + raw % 8 := by
+  unfold Query.setSFlag b2n
+  cases v <;> simp [lor_8] <;> omega
+
+theorem Query.setQrv_arith (raw v : Nat) : Query.setQrv raw v = raw / 8 * 8 + v % 8 := by
+  unfold Query.setQrv
+  rw [lor_eq_add 3 _ _ (by omega) (by omega)]
+
 end EpModel.BitFields
